@@ -62,8 +62,13 @@ def detect(d, ids):
             except subprocess.TimeoutExpired:
                 sh("pkill -f 'harness/core.py %s'" % pid)
                 rc, out = 2, "CHECK-BROKEN: no verdict within 900 s"
-            lines = [l for l in out.splitlines() if l.startswith(("PASS", "VIOLATION", "KNOWN-FINDING", "CHECK-BROKEN", "  "))]
-            verdicts[pid] = {"rc": rc, "lines": lines[:6], "secs": round(time.time() - t0, 1)}
+            all_lines = out.splitlines()
+            lines = [l for l in all_lines if l.startswith(("PASS", "VIOLATION", "KNOWN-FINDING", "CHECK-BROKEN"))]
+            # (the code under test may print as well: of the indented lines keep those that follow a verdict line)
+            for i, l in enumerate(all_lines):
+                if l.startswith("  ") and i and all_lines[i - 1].startswith(("VIOLATION", "  broken", "CHECK-BROKEN")) or l.startswith("  broken"):
+                    lines.append(l)
+            verdicts[pid] = {"rc": rc, "lines": lines[:8], "secs": round(time.time() - t0, 1)}
     finally:
         sh("git -C %s checkout -- ." % REPO)
         # restore the generated constants and the evidence of the clean tree is re-written by the next clean run
